@@ -32,7 +32,10 @@
 EXTENDS SExpr
 
 AllChars == {"LP", "RP", "SP", "TAB", "LF", "CR", "DQ", "BAR", "SEMI",
-             "A", "D", "HASH", "COLON", "MINUS"}
+             "A", "D", "HASH", "COLON", "MINUS", "BS"}
+\* "BS" is the backslash: an ordinary character of string literals and
+\* comments (SMT-LIB 2.6 has no escape but the doubled quote); it is not a
+\* symbol character and may not occur in quoted symbols.
 
 WS        == {"SP", "TAB", "LF", "CR"}
 LineBreak == {"LF", "CR"}
